@@ -28,6 +28,10 @@ COMMON_ASSUMPTIONS = [
     "another object must not be used again); Event / Exception objects are treated as immutable",
     "user-supplied callables (retry policies, predicates, step bodies) are uninterpreted; when they raise, the "
     "exception is assumed to be an Exception (not KeyboardInterrupt / CancelledError)",
+    "collaborator objects (stores, adapters, connections, library objects) are opaque: an effectful call on one has no "
+    "effect the verifier sees other than its entry in the ghost call log, a pure call / attribute read is a function "
+    "of the object and the arguments; a value that is both stored in a field and returned (`self.f = x; return x`) is "
+    "returned as a plain value - aliasing between a result and the receiver is not tracked for callers",
     "logger.* calls are dropped by the extraction (their arguments are not evaluated)",
     "exceptions raised while evaluating the element expression of a comprehension are not modelled",
     "z3 is trusted for 'unsat'",
